@@ -30,6 +30,9 @@ import Rtp.Pred.C12
 import Rtp.Model.AV1Pay
 import Rtp.Model.AV1Depack
 import Rtp.Spec.Av1Rtp
+import Rtp.Model.H265
+import Rtp.Model.H265Obs
+import Rtp.Pred.C14
 namespace Rtp.Model.Pipeline
 open Rtp Rtp.Model
 
@@ -186,6 +189,28 @@ def av1Pay : Pay Unit := fun _ b x => (AV1.payload b x, ())
     Z / Y / N flags of the last packet) -/
 def av1Depack : Depack AV1.DSt := fun d p => AV1.depUnmarshal d p
 
+/-- `codecs.H265Payloader` (options AddDONL / SkipAggregation; state: the DONL counter) -/
+def h265Pay (cfg : H265.Cfg) : Pay UInt16 := fun d b x => H265.payload cfg b d (some x)
+
+/-- `codecs.H265Packet.Unmarshal` (told whether to expect DONL fields).  The real method hands back
+    NO bytes (`return nil, nil`): it keeps the parsed packet for its accessors.  So that reassembly
+    can be judged, the receiving side of the H265 pipeline keeps the payload of every packet that
+    `H265Packet` ACCEPTED: `outs` = the RTP payloads as received and accepted, an error where the
+    parser refused one. -/
+def h265Depack (donl : Bool) : Depack Unit := fun _ p => ((H265.unmarshal donl (some p)).map (fun _ => p), ())
+
+/-- one HEVC access unit handed to `Packetize`: NAL units behind 3- or 4-byte start codes (the
+    number in front of each unit) or one bare unit (0) -/
+structure H265Frame where
+  units : List (Nat × Bytes)
+  samples : UInt32 := 0
+  now : Int64 := 0
+
+namespace H265Frame
+def frameIn (fr : H265Frame) : FrameIn :=
+  { frame := Pred.C14.frameBytes fr.units, samples := fr.samples, now := fr.now }
+end H265Frame
+
 /-! ### AV1 temporal units as lists of OBUs (the form C13 quantifies over) -/
 
 /-- one temporal unit handed to `Packetize`: OBUs in the low-overhead bitstream format -/
@@ -286,6 +311,10 @@ def runVP9 (st : VP9Pay) (pk : Packetizer) (r : VP9Packet) (fs : List FrameIn) :
 
 def runAV1 (pk : Packetizer) (d : AV1.DSt) (fs : List FrameIn) : List FrameObs :=
   run av1Pay av1Depack { pk := pk, st := () } d fs
+
+/-- H265Payloader with DONL counter `d`; the receiver expects DONL fields iff the payloader adds them -/
+def runH265 (cfg : H265.Cfg) (d : UInt16) (pk : Packetizer) (fs : List FrameIn) : List FrameObs :=
+  run (h265Pay cfg) (h265Depack cfg.addDONL) { pk := pk, st := d } () fs
 
 /-- a new H264Payloader; `buf` = what the receiver's fragment buffer holds -/
 def runH264 (disable avc : Bool) (pk : Packetizer) (buf : Bytes) (fs : List FrameIn) : List FrameObs :=
